@@ -10,8 +10,8 @@ MANIFEST = {
     "text": "Coq theorems over a document model of formatter.rs and of both statement drivers, for all ASTs, widths, "
             "indentations and all expr_to_source oracles: every comment of the commented AST is accounted for in order "
             "by every layout (shown, or under an expression printed through expr_to_source), both drivers account for "
-            "all statement-level comments (CLI driver refuted: drops end-of-line comments; proved for the proposed "
-            "fix), a lexer-level scan of the rendered text recovers the shown comments; model tied to the code by the "
+            "all statement-level comments (library loop and blots --format loop), "
+            "no layout merges a comment into code, a lexer-level scan of the rendered text recovers the shown comments; model tied to the code by the "
             "FORMAT correspondence (text equality incl. formatter output re-formatted and the real blots --format "
             "binary) and the comment-sequence oracle searched on the implementation over generated programs with "
             "comments at every position class the grammar admits",
